@@ -172,3 +172,51 @@ func RunConcurrent[T any](t *testing.T, run *evid.Run, items []T, workers, round
 		t.Errorf("%v", err)
 	}
 }
+
+// Retain keeps results the code under test has handed out and checks later that they still are what they were: a
+// result that lives in memory the callee reuses (a pooled or per-object buffer) changes when the callee works again.
+type Retain struct {
+	mu    sync.Mutex
+	items []retained
+	Max   int // ring size (default 6)
+}
+
+type retained struct {
+	what string
+	live func() []byte
+	snap []byte
+}
+
+// Keep remembers a result; live returns its current content.
+func (r *Retain) Keep(what string, live func() []byte) {
+	snap := append([]byte{}, live()...)
+	r.mu.Lock()
+	if r.Max == 0 {
+		r.Max = 6
+	}
+	if len(r.items) >= r.Max {
+		r.items = r.items[1:]
+	}
+	r.items = append(r.items, retained{what, live, snap})
+	r.mu.Unlock()
+}
+
+// Verify reports the first kept result that has changed since it was handed out (and forgets it).
+func (r *Retain) Verify() error {
+	r.mu.Lock()
+	defer r.mu.Unlock()
+	for i, it := range r.items {
+		if now := it.live(); string(now) != string(it.snap) {
+			r.items = append(r.items[:i:i], r.items[i+1:]...)
+			return fmt.Errorf("%s changed after it was returned: the callee went on using its memory (was %d bytes %x…, now %d bytes %x…)", it.what, len(it.snap), head(it.snap), len(now), head(now))
+		}
+	}
+	return nil
+}
+
+func head(b []byte) []byte {
+	if len(b) > 12 {
+		return b[:12]
+	}
+	return b
+}
